@@ -217,6 +217,8 @@ def main(argv=None):
         else:
             agg['instances_partial'] += 1
             inconclusive.append(f"{label}: budget exhausted with {r['remaining_paths']} paths queued")
+        if r.get('concrete_only'):
+            agg['concrete_only_instances'] = agg.get('concrete_only_instances', 0) + 1
         for name, d in r['claims'].items():
             n = d['unsat'] + d['sat'] + d.get('unknown', 0)
             agg['claims'] += n
@@ -323,6 +325,7 @@ def main(argv=None):
             'instances': len(tasks), 'instances_exhausted': agg['instances_exhausted'],
             'instances_partial': agg['instances_partial'],
             'aborted_paths': agg['aborted_paths'], 'unmodelled_paths': agg['unmodelled_paths'],
+            'concrete_only_instances': agg.get('concrete_only_instances', 0),
             'exhaustive': False,
             'bounds': getattr(mod, 'BOUNDS', {}).get(tier, ''),
             'outside_bounds': getattr(mod, 'OUTSIDE', ''),
